@@ -61,6 +61,8 @@ if int(RND) >= 7:
     HINT = HINT5 + " " + HINT6
 if int(RND) >= 8:
     HINT += " Prefer changes whose effect is a plausible-looking but wrong result (a value in the wrong row or at the wrong time, an event or byte missing or duplicated, a trace accepted that should be refused) over changes that make a tool crash or refuse everything: crashes and blanket refusals are found quickly."
+if int(RND) >= 9:
+    HINT += " Also welcome in this round: what happens on the SECOND use of something (a second life of a thread after its end event, a second ovni_thread_init, a second emulation or sort of the same directory, the second process or loom of a host, the second table entry with the same key); documented but non-default options and environment variables; the secondary outputs and tools (ovnitop, ovnievents, ovniver, the .row / .pcf writers, the Paraver time header, the sorting and ordering helpers); conversions at module boundaries (signed / unsigned, 32 / 64 bits, double / integer, string / number); and error paths that must keep the exit status non-zero after the first problem was reported."
 print(f"""You are helping to test how well a verification effort for the C project bsc-pm/ovni detects regressions. ovni is a tracing runtime (libovni, src/rt/ovni.c) that writes per-thread binary event streams, plus an emulator (ovniemu) and tools (ovnidump, ovnitop, ovnisort, ovnievents, ovniver; src/emu) that replay them into Paraver traces. Documentation is under doc/.
 
 You have your own scratch git worktree of the repository at {WT}. Work only there and under {SD} (create it). Never read or write /repo or /verif. There is no network.
